@@ -78,15 +78,21 @@ def run(ctx):
         text = open(os.path.join(ctx.scratch, races[0])).read()
         ctx.fail("race:watcher.Changes", "data race reported by the Go race detector", {"race_log": text[:4000]})
     if rc1 not in (0, 66) or rc2 not in (0, 66):
+        # keep going: the lines printed so far may already contain failing inputs
         ctx.broken("correspondence(c40:run)", "harness rc=%d/%d %s %s" % (rc1, rc2, out1[-300:], out2[-300:]))
-        return
-    rows = []
+    rows, skipped = [], 0
     for line in (out1 + out2).splitlines():
         f = line.split("\t")
         if len(f) != 7:
-            ctx.broken("correspondence(c40:format)", "bad harness line: %r" % line[:200])
-            return
+            if rc1 in (0, 66) and rc2 in (0, 66):
+                ctx.broken("correspondence(c40:format)", "bad harness line: %r" % line[:200])
+            continue
+        if f[5] == "skipped-after-failures":
+            skipped += 1
+            continue
         rows.append(f)
+    if skipped:
+        ctx.log("harness skipped %d cases after repeated failures" % skipped)
     # direct oracle verdicts
     for f in rows:
         if f[5] != "ok":
@@ -132,7 +138,8 @@ def run(ctx):
     nontriv = set(f[2] for f in good if "g" in f[2] and "F" in f[2])
     nvalid = sum(1 for m in mlines if m.startswith("OK"))
     ctx.cover(evaluations=len(rows), distinct_nontrivial=len(nontriv),
-              samples=[{"case": f[0], "history": f[2], "trace": f[3][:400]} for f in (good[nex // 2], good[-1], good[-2])],
+              samples=[{"case": f[0], "history": f[2], "trace": f[3][:400]}
+                       for f in [good[k] for k in sorted(set([min(nex // 2, len(good) - 1), len(good) - 1, max(len(good) - 2, 0)]))]] if good else [],
               rule="scripts: exhaustive over {R0,R1,R0+R1,R2+R0+R2,F} (+ = burst), length<=%d (%d scripts; F on an empty set blocks and "
                    "must be woken by the next report) + %d seeded scripts over 8 directories; concurrent: %d seeded workloads (1-3 producers, 1-3 consumers, 1-4 directories, three start "
                    "orders, random yields), race detector on. non-trivial = distinct recorded history containing a report "
